@@ -420,27 +420,39 @@ def s4OfBox (l : List Nat) : Except Err TensorAddr.S4 :=
   | [n, h, w, c] => .ok ⟨n, h, w, c⟩
   | _ => .error .rank
 
+/-- `is_ofm and tens.ops[0] is not None and tens.ops[0].original_type == Op.Transpose` -/
+def fmTransposed (tens : TensD) (isOfm : Bool) : Except Err Bool :=
+  if isOfm then
+    match tens.producer with
+    | none => .error .index
+    | some none => .ok false
+    | some (some o) => .ok (o == .transpose)
+  else .ok false
+
 def createFm (tens : TensD) (box : BoxD) (arch : ArchD) (opShape : TensorAddr.S4) (offs : List Nat)
-    (mult : Option (Nat × Nat × Nat)) (isOfm : Bool) : Except Err FM := do
-  let region ← getRegion tens.memType arch
-  let dtype ← dtypeMap tens.dtype
-  if tens.t.fmt == .other then throw .assert
-  let transposed ← if isOfm then
-      match tens.producer with
-      | none => throw Err.index
-      | some none => pure false
-      | some (some o) => pure (o == .transpose)
-    else pure false
-  let s ← s4OfBox box.start
-  let e ← s4OfBox box.stop
-  match TensorAddr.createFeatureMap tens.t s e opShape offs mult transposed with
-  | .error er => throw (ofTA er)
-  | .ok r =>
-    pure { dtype := dtype, region := region, shape := ⟨0, 0, 0⟩,
-           height0 := r.tiles.height0, height1 := r.tiles.height1, width0 := r.tiles.width0,
-           addresses := [(r.tiles.a0 : Int), r.tiles.a1, r.tiles.a2, r.tiles.a3],
-           hasQuant := false, zeroPoint := 0, nhcwb16 := tens.t.fmt == .nhcwb16,
-           strides := some ⟨r.strideH, r.strideW, r.strideD⟩, scaled := false }
+    (mult : Option (Nat × Nat × Nat)) (isOfm : Bool) : Except Err FM :=
+  match getRegion tens.memType arch with
+  | .error e => .error e
+  | .ok region =>
+    match dtypeMap tens.dtype with
+    | .error e => .error e
+    | .ok dtype =>
+      if tens.t.fmt == .other then .error .assert else
+      match fmTransposed tens isOfm with
+      | .error e => .error e
+      | .ok transposed =>
+        match s4OfBox box.start, s4OfBox box.stop with
+        | .error e, _ => .error e
+        | .ok _, .error e => .error e
+        | .ok s, .ok e =>
+          match TensorAddr.createFeatureMap tens.t s e opShape offs mult transposed with
+          | .error er => .error (ofTA er)
+          | .ok r =>
+            .ok { dtype := dtype, region := region, shape := ⟨0, 0, 0⟩,
+                  height0 := r.tiles.height0, height1 := r.tiles.height1, width0 := r.tiles.width0,
+                  addresses := [(r.tiles.a0 : Int), r.tiles.a1, r.tiles.a2, r.tiles.a3],
+                  hasQuant := false, zeroPoint := 0, nhcwb16 := tens.t.fmt == .nhcwb16,
+                  strides := some ⟨r.strideH, r.strideW, r.strideD⟩, scaled := false }
 
 def withQuant (fm : FM) (q : Option NpuQuant) : FmB :=
   match q with
@@ -546,36 +558,48 @@ def modifyTiles (fm : FM) (dir : Int × Int × Int × Int) (channels : Nat) (isI
   else if dir = (0, 0, 1, 1) then .ok { fm with addresses := [a0, a0 + tr, a0 + bl, a0 + br] }
   else .error .assert
 
+/-- `box_start_coord_min`, `box_end_coord_max`: the whole IFM width, or the slice the operator was fused with -/
+def padBoxLimits (c : StripeD) : Except Err (Int × Int) :=
+  let useWhole := match c.op.readOffset0 with | none => true | some l => l.length < 2
+  if useWhole then .ok ((0 : Int), (c.ifmShape0.w : Int))
+  else
+    match c.op.readOffset0.bind penult, c.op.readShape0 with
+    | some o, some shp => match penult shp with
+      | some s => .ok (o, s)
+      | none => .error .index
+    | _, _ => .error .type
+
+/-- top / bottom from the command when the operation is striped in height, left / right dropped when the IFM box does not
+    touch the respective edge -/
+def padValues (c : StripeD) (p0 : Int × Int × Int × Int) (lim : Int × Int) : Padding :=
+  let (top0, left0, bottom0, right0) := p0
+  let (top, bottom) := if !(c.isFirstH && c.isLastH) then (c.padTop, c.padBottom) else (top0, bottom0)
+  let left := match penult c.ifmBox.start with
+    | some x => if (x : Int) > lim.1 then 0 else left0
+    | none => left0
+  let right := match penult c.ifmBox.stop with
+    | some x => if (x : Int) < lim.2 then 0 else right0
+    | none => right0
+  ⟨top, left, bottom, right⟩
+
 /-- returns the padding and the (possibly re-pointed) IFM -/
 def createPadding (c : StripeD) (isDepthwiseOp : Bool) (ifm : FM) : Except Err (Padding × FM) :=
-  let op := c.op
-  if op.type.blockType == .vectorProduct then .ok (⟨0, 0, 0, 0⟩, ifm) else
-  match op.explicitPadding with
+  if c.op.type.blockType == .vectorProduct then .ok (⟨0, 0, 0, 0⟩, ifm) else
+  match c.op.explicitPadding with
   | none => .error .key
-  | some (top0, left0, bottom0, right0) => do
-    let (top, bottom) := if !(c.isFirstH && c.isLastH) then (c.padTop, c.padBottom) else (top0, bottom0)
-    let useWhole := match op.readOffset0 with | none => true | some l => l.length < 2
-    let (boxStartMin, boxEndMax) : Int × Int ←
-      if useWhole then pure ((0 : Int), (c.ifmShape0.w : Int))
-      else
-        match op.readOffset0.bind penult, op.readShape0 with
-        | some o, some shp => match penult shp with
-          | some s => pure (o, s)
-          | none => throw Err.index
-        | _, _ => throw Err.type
-    let left := match penult c.ifmBox.start with
-      | some x => if (x : Int) > boxStartMin then 0 else left0
-      | none => left0
-    let right := match penult c.ifmBox.stop with
-      | some x => if (x : Int) < boxEndMax then 0 else right0
-      | none => right0
-    if op.paddingAttr == some .tile then
-      if c.ifm.t.fmt ≠ .nhcwb16 then throw .assert
-      if !isDepthwiseOp then throw .assert
-      let fm1 ← modifyTiles ifm (top0, left0, bottom0, right0) c.ifmShape0.c (c.ifm.dtype == .int16)
-      let fm2 := { fm1 with shape := ⟨fm1.shape.height + top0 + bottom0, fm1.shape.width + left0 + right0, fm1.shape.depth⟩ }
-      pure (⟨0, 0, 0, 0⟩, fm2)
-    else pure (⟨top, left, bottom, right⟩, ifm)
+  | some p0 =>
+    match padBoxLimits c with
+    | .error e => .error e
+    | .ok lim =>
+      if c.op.paddingAttr == some .tile then
+        if c.ifm.t.fmt ≠ .nhcwb16 then .error .assert
+        else if !isDepthwiseOp then .error .assert
+        else match modifyTiles ifm p0 c.ifmShape0.c (c.ifm.dtype == .int16) with
+          | .error e => .error e
+          | .ok fm1 =>
+            .ok (⟨0, 0, 0, 0⟩, { fm1 with shape := ⟨fm1.shape.height + p0.1 + p0.2.2.1, fm1.shape.width + p0.2.1 + p0.2.2.2,
+                                                      fm1.shape.depth⟩ })
+      else .ok (padValues c p0 lim, ifm)
 
 /-! ## `set_common_op_fields` -/
 
@@ -942,11 +966,13 @@ def buildBlock (fo : FloatOps) (c : StripeD) (arch : ArchD) : Except Err BlockB 
 
 def convert (fo : FloatOps) (cmd : Cmd) (arch : ArchD) (o : Oracle) : Except Err Built :=
   match cmd with
-  | .dma d => do
-    let (s, t) ← createDmaOp d arch
-    pure { op := .dma { src := s, dst := t, channel := 0, mode := 0, kernelWait := o.kernelWait, dmaWait := o.dmaWait } }
-  | .stripe c => do
-    let b ← buildBlock fo c arch
-    toRecord fo b o
+  | .dma d =>
+    match createDmaOp d arch with
+    | .error e => .error e
+    | .ok (s, t) => .ok { op := .dma { src := s, dst := t, channel := 0, mode := 0, kernelWait := o.kernelWait, dmaWait := o.dmaWait } }
+  | .stripe c =>
+    match buildBlock fo c arch with
+    | .error e => .error e
+    | .ok b => toRecord fo b o
 
 end VelaVerif.NpuOpBuild
